@@ -713,6 +713,21 @@ Proof.
   - apply IH; [assumption|]. intros y Hy [Heq|Hin]; [subst; contradiction | apply (Hacc y); [right; exact Hy | exact Hin]].
 Qed.
 
+Lemma builder_agrees_gen idx w parent now items m newid keep :
+  idx (b_id parent) = Some parent ->
+  is_repeat idx w W parent now items = (m, false) ->
+  (forall it, In it keep -> exists i, nth_error items i = Some it /\ nth i m true = false) ->
+  NoDup (ids keep) ->
+  verify_replay idx w W (mkB newid (b_id parent) (N.succ (b_height parent)) now keep) = 0%N.
+Proof.
+  intros Hp Hr Hk Hnd. unfold verify_replay. cbn [b_height b_items b_parent b_ts].
+  destruct (N.succ (b_height parent) <=? last_h w)%N; [reflexivity|].
+  rewrite nodup_has_dup; [|exact Hnd|intros ? ? []].
+  rewrite Hp. unfold is_repeat in Hr.
+  erewrite walk_filter; [| |exact Hr|exact Hk]; [|apply repeat_length].
+  cbn [fst snd]. fold (anyb (no_marks (length keep))). unfold no_marks. rewrite anyb_repeat. reflexivity.
+Qed.
+
 Lemma builder_agrees idx w parent now items m newid :
   idx (b_id parent) = Some parent ->
   is_repeat idx w W parent now items = (m, false) ->
